@@ -246,7 +246,7 @@ Proof.
 Qed.
 End Skip.
 
-Theorem greedy_skip_eq_naive_lemma : forall signal response off la,
+Theorem greedy_skip_eq_naive_sec : forall signal response off la,
   nn_greedy signal response off la = nn_naive signal response off la.
 Proof.
   intros signal response off la. unfold Greedy.nn_greedy, Greedy.nn_naive, Greedy.nn_with.
@@ -281,8 +281,26 @@ Lemma ls_deconv_ext signal response offs las :
 Proof. unfold Greedy.ls_deconv. rewrite ls_outer_ext. reflexivity. Qed.
 End LsExt.
 
-Theorem deconv_eq_plain_lemma : forall signal response offs las,
+Theorem deconv_eq_plain_sec : forall signal response offs las,
   ls_deconv nn_greedy signal response offs las = ls_deconv nn_naive signal response offs las.
-Proof. intros. apply ls_deconv_ext. apply greedy_skip_eq_naive_lemma. Qed.
+Proof. intros. apply ls_deconv_ext. apply greedy_skip_eq_naive_sec. Qed.
 
 End GreedyProofs.
+
+(* Statements with exactly the parameters they mention (inside the Section `lia` makes every lemma
+   depend on all Section variables; the unused ones are instantiated with dummies here). *)
+Lemma greedy_skip_eq_naive_lemma :
+  forall (F : Type) (zero szero : F) (add sub mul div fmin : F -> F -> F) (neg nonneg : F -> bool)
+         (signal response : list F) (off la : nat),
+  nn_greedy F zero szero add sub mul div fmin neg nonneg signal response off la =
+  nn_naive F zero szero add sub mul div fmin neg nonneg signal response off la.
+Proof.
+  intros. exact (greedy_skip_eq_naive_sec F zero szero zero add sub mul div fmin neg nonneg (fun _ _ => true)
+                   signal response off la).
+Qed.
+Lemma deconv_eq_plain_lemma :
+  forall (F : Type) (zero szero inf : F) (add sub mul div fmin : F -> F -> F) (neg nonneg : F -> bool)
+         (ltb : F -> F -> bool) (signal response : list F) (offs las : list nat),
+  ls_deconv F inf ltb (nn_greedy F zero szero add sub mul div fmin neg nonneg) signal response offs las =
+  ls_deconv F inf ltb (nn_naive F zero szero add sub mul div fmin neg nonneg) signal response offs las.
+Proof. intros. apply deconv_eq_plain_sec. Qed.
